@@ -19,8 +19,9 @@
 (*   TilesInv      the layout law tiles the stream; binary size laws hold  *)
 (*   PrefixClosed  the cells wholly inside a prefix form a prefix of the   *)
 (*                 cell sequence (no hole can be "wholly present")         *)
-(*   StrictLaw     binary files: no strict prefix is complete; ASCII       *)
-(*                 files: only the prefix lacking the final newline is     *)
+(*   StrictLaw     binary files: no strict prefix is complete; ASCII files *)
+(*                 and header-only PLY: only the prefix lacking the final  *)
+(*                 newline is                                              *)
 (*   SplatLaw      the splat records wholly inside k bytes are k \div 32   *)
 (*   FrameLaw      stored gzip framing: the block table obeys the law,     *)
 (*                 Avail is monotone, <= k, reaches slen exactly when only *)
@@ -74,6 +75,7 @@ PlyFile(enc, ps, nv, fk) ==
     [Base EXCEPT !.fmt = "ply", !.enc = enc, !.cols = PS(ps), !.rows = Rows(nv, Len(PS(ps))),
                  !.hf = ff.hf, !.ct = ff.ct, !.it = ff.it, !.tex = ff.tex, !.faces = ff.faces]
 PlyFiles == {PlyFile(e, p, n, fk) : e \in Encs, p \in PropSets, n \in NV, fk \in FaceKinds}
+            \cup {PlyFile(e, p, 0, "none") : e \in Encs, p \in PropSets}        \* header-only point clouds
 
 StlFiles == {[Base EXCEPT !.fmt = "stl", !.rows = [t \in 1..n |-> [c \in 1..13 |-> IF c = 13 THEN 0 ELSE Val(t, c, 12)]]]
              : n \in StlN}
@@ -111,10 +113,13 @@ Emit == gk # 0 \/ PrintT(ToJson(gf))
 
 TilesInv == gk = 0 => (Tiles(gc, SLen) /\ SizeLaw(gf, SLen) /\ gc = NominalCells(gf))
 PrefixClosed == LET w == Whole(gc, A) IN w = 1..Cardinality(w)
+\* trailing framing exists only as the final newline of an ASCII file or of a
+\* header-only PLY; everywhere else no strict prefix is complete
+Trailing == SLen - ReqEnd(gc)
 StrictLaw ==
-    IF gf.frame = "stored" THEN Complete(gc, A) <=> gk >= FLen - 8
-    ELSE IF gf.enc = "ascii" THEN Complete(gc, A) <=> gk >= SLen - 1
-    ELSE Complete(gc, A) <=> gk = SLen
+    /\ Trailing = (IF gf.enc = "ascii" \/ (gf.fmt = "ply" /\ gf.rows = <<>> /\ gf.faces = <<>>) THEN 1 ELSE 0)
+    /\ IF gf.frame = "stored" THEN Complete(gc, A) <=> gk >= FLen - 8
+       ELSE Complete(gc, A) <=> gk >= SLen - Trailing
 SplatLaw == gf.fmt = "splat" =>
     Cardinality({r \in DOMAIN gf.rows : End(gc[14 * r]) <= gk}) = gk \div 32
 FrameLaw == gf.frame = "stored" =>
